@@ -3,7 +3,7 @@ other than `unsat` is NOT proved.  Counter-models are rendered as Python source.
 import time
 import z3
 
-DEFAULT_TIMEOUT_MS = 20000
+DEFAULT_TIMEOUT_MS = 60000
 
 
 def discharge(w, ob, timeout_ms=DEFAULT_TIMEOUT_MS, fuel=3):
